@@ -81,6 +81,66 @@ static void run(const std::string & tn)
   });
 }
 
+// The adaptor's mechanism itself: scale_sum(1, alpha_2 .. alpha_n)(y, x, a_2 .. a_n) must give y = x * exp(sum alpha_i a_i) for
+// DIFFERENT derivatives a_i and DIFFERENT weights (a stepper integrating a constant velocity passes equal derivatives, which
+// hides any mix-up between weights and derivatives). All arities 1..6 derivatives x start elements x derivative menus.
+template<typename G>
+static void scale_sum_space(const std::string & tn)
+{
+  using R = Ref<G>;
+  constexpr int D = R::Dof;
+  using Tan = Eigen::Matrix<double, D, 1>;
+  AlphaOpts o = AlphaOpts::reduced();
+  o.thetas    = {0, 1.0001e-4, 0.3, 2};
+  o.tmags     = {0, 1};
+  auto Vs = tangents<R, double>(o);
+  auto X0 = elements<R, double>(AlphaOpts::tiny());
+  const uint64_t nv = Vs.size(), nx = X0.size();
+  static const double W[7] = {1.0, 0.5, -0.25, 0.125, 2.0, -1.5, 0.3};
+  mc::explore("C15/odeint-scale-sum/" + tn, 6 * nv * nx, [&](mc::Case & c) {
+    mc::Radix r(c.idx);
+    const int N     = int(r.next(6)) + 1;  // number of derivatives
+    const size_t v0 = r.next(nv);
+    const G x       = make<G>(X0[r.next(nx)]);
+    Tan a[6];
+    for (int i = 0; i < 6; ++i) a[i] = make<G>(Vs[(v0 + size_t(i) * 5) % nv]) * (0.5 + 0.25 * i);
+    c.desc = [&, N] { return mc::fmt("scale_sum%d, weights 1,0.5,-0.25,0.125,2,-1.5,0.3; ", N + 1) + "x=" + vstr(x.coeffs()) + " a_2=" + vstr(a[0]); };
+    G y = x;
+    using Ops = smooth::detail::BoostOdeintOps;
+    switch (N) {
+    case 1: Ops::scale_sum<double, double>(W[0], W[1])(y, x, a[0]); break;
+    case 2: Ops::scale_sum<double, double, double>(W[0], W[1], W[2])(y, x, a[0], a[1]); break;
+    case 3: Ops::scale_sum<double, double, double, double>(W[0], W[1], W[2], W[3])(y, x, a[0], a[1], a[2]); break;
+    case 4: Ops::scale_sum<double, double, double, double, double>(W[0], W[1], W[2], W[3], W[4])(y, x, a[0], a[1], a[2], a[3]); break;
+    case 5: Ops::scale_sum<double, double, double, double, double, double>(W[0], W[1], W[2], W[3], W[4], W[5])(y, x, a[0], a[1], a[2], a[3], a[4]); break;
+    default:
+      Ops::scale_sum<double, double, double, double, double, double, double>(W[0], W[1], W[2], W[3], W[4], W[5], W[6])(y, x, a[0], a[1], a[2], a[3], a[4], a[5]);
+    }
+    L sl[D];
+    L smax = 0;
+    for (int k = 0; k < D; ++k) {
+      sl[k] = 0;
+      for (int i = 0; i < N; ++i) sl[k] += (L)W[i + 1] * (L)a[i](k);
+      smax = std::max(smax, std::fabs(sl[k]));
+    }
+    const auto M0   = R::template matrix<L>(coeffsL(x).data());
+    const auto E    = ref::exp_ref<R>(sl);
+    const auto Mref = ref::mul(M0, E);
+    const L scale   = std::max((L)1, ref::mul(ref::cabs(M0), ref::cabs(E)).maxabs()) * (1 + smax);
+    const auto cg   = coeffsL(y);
+    c.judge("|constraint|<=2e-14", (double)R::template constraint<L>(cg.data()), 2e-14);
+    c.judge("y = x*exp(sum alpha_i a_i) within (N+2)e-13", (double)((R::template matrix<L>(cg.data()) - Mref).maxabs() / scale) / (N + 2), 1e-13);
+  });
+}
+
+MC_SUBCHECK(odeint_scale_sum)
+{
+  scale_sum_space<smooth::SO3d>("SO3d");
+  scale_sum_space<smooth::SE2d>("SE2d");
+  scale_sum_space<smooth::SE3d>("SE3d");
+  scale_sum_space<smooth::Bundle<smooth::SO3d, Eigen::Vector3d>>("Bundle<SO3,T3>d");
+}
+
 MC_SUBCHECK(odeint)
 {
   run<smooth::SO3d>("SO3d");
